@@ -539,12 +539,41 @@ func (c *callCtx) floatArg(i int) float64 {
 	case float64:
 		return x
 	case *Term:
-		// class split NaN / +Inf / -Inf / finite, finite concretised
-		bits := c.s.concretize(c.w, x, "float formatting")
-		return math.Float64frombits(bits)
+		return c.s.floatClassSplit(c.w, x)
 	}
 	c.s.unsupported("float arg %T", c.args[i])
 	return 0
+}
+
+// floatClassSplit path-splits a symbolic float64 (bit pattern) into NaN / +Inf / -Inf / finite;
+// a finite value is concretised to ONE representative (the model's) without exploring the
+// other finite values (stated under-approximation: decimal formatting is strconv's).
+func (s *State) floatClassSplit(w *Worker, x *Term) float64 {
+	if x.Sort == 32 {
+		x = mkUn(OF32to64, 64, x)
+	}
+	if s.branch(w, mkUn(OFpIsNaN, SBool, x)) {
+		return math.NaN()
+	}
+	if s.branch(w, mkUn(OFpIsInf, SBool, x)) {
+		if s.branch(w, mkEq(mkExtract(x, 63, 1), mkBV(1, 1))) {
+			return math.Inf(-1)
+		}
+		return math.Inf(1)
+	}
+	mv, ok := s.evalModel(x)
+	if !ok || fpIsNaN(mv) || fpIsInf(mv) {
+		res, m := s.checkSat(w, tTrue)
+		if res != ResSat {
+			s.abort("UNKNOWN", "no model for finite float")
+		}
+		s.model = m
+		mv, _ = s.evalModel(x)
+	}
+	if !s.assume(w, mkEq(x, mkBV(mv, 64))) {
+		s.abort("UNKNOWN", "finite float representative infeasible")
+	}
+	return math.Float64frombits(mv)
 }
 
 // errorText returns the message of an error value where the engine knows the representation.
